@@ -23,7 +23,10 @@ def _qubit_name(_selfqc, i):
     try:
         return _selfqc.get_key_by_index(i)
     except Exception:
-        return f"q{i}"
+        name = f"q{i}"
+        while name in _selfqc.qubit_map:  # do not reuse a name given to another qubit
+            name = "_" + name
+        return name
 
 
 class QasmExporter(QCircuitExporter):
